@@ -1,7 +1,7 @@
 """C08 -- an insecure shared $topdir/.Trash is never used, for writing, reading or purging."""
 from vf import rt, scen, world as W
 from vf.commands import C
-from vf.runner import CH
+from vf.runner import CH, ZQ
 from harness import common as K
 
 PARTITION = None
@@ -118,6 +118,39 @@ def k_sticky(mode: int) -> str:
     if bool(got_put) != want:
         return rt.fail('C08:sticky-test:put', 'permission bits %o: trash-put considers it %ssticky' % (mode, '' if got_put else 'not '))
     return rt.ok()
+
+
+def z_sticky():
+    """unsat <=> both sticky tests (readers' and trash-put's) equal 'S_ISVTX set' for every st_mode of a directory"""
+    import time
+    import z3
+    from vf.zenc import bitexpr
+    import trashcli.fs as tfs
+    import trashcli.put.fs.real_fs as rfs
+    mode = z3.BitVec('st_mode', bitexpr.WIDTH)
+    try:
+        readers = bitexpr.translate(tfs.RealHasStickyBit.has_sticky_bit, mode)
+        put = bitexpr.translate(rfs.RealFs.has_sticky_bit, mode)
+    except bitexpr.Unsupported as e:
+        return {'verdict': 'unknown', 'message': 'sticky test outside the translatable subset: %s' % e}
+    want = (mode & 0o1000) != 0
+    s = z3.Solver()
+    s.set('timeout', 60000)
+    s.add(z3.ULE(mode & 0o7777, 0o7777), (mode & ~z3.BitVecVal(0o7777, bitexpr.WIDTH)) == 0o040000)
+    s.add(z3.Or(readers != want, put != want))
+    t0 = time.time()
+    r = s.check()
+    out = {'verdict': str(r), 'solver_s': round(time.time() - t0, 3), 'queries': 1,
+           'samples': ['readers: ' + str(z3.simplify(readers)), 'trash-put: ' + str(z3.simplify(put))]}
+    if str(r) == 'sat':
+        m = s.model().eval(mode, model_completion=True).as_long() & 0o7777
+        out['model'] = {'mode': m}
+        out['message'] = 'permission bits %o: a sticky test answers differently from "S_ISVTX set"' % m
+    return out
+
+
+def z_sticky_replay(model):
+    return k_sticky(model['mode'])
 
 
 ALT = ['absent', 'dir-populated', 'file']
@@ -274,9 +307,9 @@ def obligations(tier):
         CH('K_rules_reader_and_writer', MOD, 'k_rules', timeout=120, engine='K', regime='traced',
            encodes=['TopTrashDirRules.valid_to_be_read', 'SecurityCheck.check_trash_dir_is_secure'],
            bounds='all answer combinations of a symbolic reader (exists, isdir, islink, sticky)', stubs=['file-system reader -> 4 symbolic booleans']),
-        CH('K_sticky_test_all_modes', MOD, 'k_sticky', timeout=120, engine='K', regime='traced',
-           encodes=['trashcli.fs.RealHasStickyBit.has_sticky_bit', 'RealFs.has_sticky_bit'], stubs=['os.stat -> symbolic permission bits'],
-           bounds='every permission value 0..07777'),
+        ZQ('Z_sticky_test_all_modes', MOD, 'z_sticky', timeout=60,
+           encodes=['trashcli.fs.RealHasStickyBit.has_sticky_bit', 'RealFs.has_sticky_bit (from their ASTs, following calls)'],
+           stubs=['os.stat(path).st_mode -> bit-vector variable'], bounds='every st_mode of a directory (all 4096 permission values)'),
         CH('W_state_x_alt_x_cmd', MOD, 'w_main', timeout=600, engine='W', regime='selector',
            encodes=K.PUT_FUNCS + K.LIST_FUNCS + K.RESTORE_FUNCS + K.EMPTY_FUNCS + K.RM_FUNCS, stubs=K.STUBS,
            bounds='9 .Trash states (incl. setgid/setuid without sticky) x 3 .Trash-uid states x 11 command/argument combinations (all five commands)'),
